@@ -18,6 +18,28 @@ def timeCols : List String := ["offset"]
 def durCols : List String := ["length"]
 def bpmCols : List String := ["bpm"]
 
+/-- every other column any game's lists declare: lanes, metronome, SV multiplier, hit-sound and key-sound
+attributes — none of them a time, a duration or a tempo.  (`Props/C13.lean: schema_tie` checks against the
+schema generated from the source that no column is left unclassified.) -/
+def otherCols : List String :=
+  ["column", "metronome", "multiplier", "kiai", "sample_set", "sample_set_index", "volume", "addition_set",
+   "custom_set", "hitsound_file", "hitsound_set", "keysounds", "sample", "pan", "sample_file"]
+
+/-- file-level fields of an osu map that are times (the property names: preview point, sample events) -/
+def osuTimeFields : List String := ["samples", "preview_time"]
+/-- … and the ones that are not (`audio_lead_in` is silence before the audio starts, in real time) -/
+def osuOtherFields : List String :=
+  ["background_file_name", "hp_drain_rate", "circle_size", "overall_difficulty", "approach_rate", "slider_multiplier",
+   "slider_tick_rate", "title", "title_unicode", "artist", "artist_unicode", "creator", "version", "source", "tags",
+   "beatmap_id", "beatmap_set_id", "distance_spacing", "beat_divisor", "grid_size", "timeline_zoom", "audio_file_name",
+   "audio_lead_in", "countdown", "sample_set", "stack_leniency", "mode", "letterbox_in_breaks", "special_style",
+   "widescreen_storyboard"]
+/-- file-level fields of a StepMania set that are times (the property names: file offset, sample window) -/
+def smTimeFields : List String := ["offset", "sample_start", "sample_length"]
+def smOtherFields : List String :=
+  ["title", "subtitle", "artist", "title_translit", "subtitle_translit", "artist_translit", "genre", "credit", "banner",
+   "background", "lyrics_path", "cd_title", "music", "display_bpm", "selectable", "bg_changes", "fg_changes"]
+
 def scaleCell (r : Rat) (col : String) : Cell → Cell
   | .num q =>
     if timeCols.contains col || durCols.contains col then .num (q / r)
